@@ -341,11 +341,35 @@ package l1infotreesync
 //@   ensures[a-verification-of-that-rollup-at-or-after-that-block] result1 == nil ==> result0 != nil && result0.RollupID == rollupID && result0.BlockNumber >= blockNum
 //@   ensures[not-found-only-when-the-statement-found-no-row] (result1 != nil && isErr(result1, db.ErrNotFound)) == l1LookupNoRows
 //@   assert call:QueryRow arg0 == p.db
+// the last processed block at or below a bound, with its stored hash (C09: the block the certificate's finalized L1
+// info root is taken at; C15): the statement's meaning is assumed at the Scan (A5: the row read has num <= the bound
+// given), the function's own logic is proved - the store's connection, the bound given, nothing on error
+//@ extern (*database/sql.DB).QueryRow@l1infotreesync.(*processor).GetProcessedBlockUntil (d, query, args)
+//@   modifies nothing
+//@   ensures result != nil
+//@ extern (*database/sql.Row).Scan@l1infotreesync.(*processor).GetProcessedBlockUntil (r, dest)
+//@   requires len(dest) == 2 && typeIs(dest[0], *uint64) && cast(dest[0], *uint64) != nil && typeIs(dest[1], **string) && cast(dest[1], **string) != nil
+//@   modifies *cast(dest[0], *uint64), *cast(dest[1], **string)
+//@   ensures result == nil ==> *cast(dest[0], *uint64) <= caller.blockNum
+//@ extern github.com/ethereum/go-ethereum/common.HexToHash@l1infotreesync.(*processor).GetProcessedBlockUntil (s)
+//@   modifies nothing
 //@ func (p *processor) GetProcessedBlockUntil (p, ctx, blockNum)
 //@   props C09 C15
-//@   trusted
-//@   modifies nothing
 //@   sqltext "SELECT num, hash FROM block WHERE num <= $1 ORDER BY num DESC LIMIT 1;"
+//@   requires p != nil && p.db != nil
+//@   modifies nothing
+//@   nocalls
+//@   allowcalls QueryRow Scan HexToHash
+//@   ensures[at-or-below-the-bound] result2 == nil ==> result0 <= blockNum
+//@   ensures[error-means-nothing] result2 != nil ==> result0 == 0 && result1 == ZeroHash
+//@   assert call:QueryRow arg0 == p.db && len(arg2) == 1 && typeIs(arg2[0], uint64) && unbox(arg2[0], uint64) == blockNum
+
+//@ func (s *L1InfoTreeSync) GetProcessedBlockUntil (s, ctx, blockNum)
+//@   props C09
+//@   requires s != nil && s.processor != nil && s.processor.db != nil
+//@   modifies nothing
+//@   ensures[at-or-below-the-bound] (!old(s.processor.halted) && result2 == nil) ==> result0 <= blockNum
+//@   assert call:GetProcessedBlockUntil arg0 == s.processor && arg2 == blockNum
 
 // ---- decoding the watched L1 logs into events of the block (C11, C05): one event per log; the info-tree update takes
 // both exit roots from the decoded log and the parent hash and timestamp from the block it is in; a verified batch takes
